@@ -59,7 +59,10 @@ type Gen struct {
 	fc       *FuncContract
 	mode     Mode
 	wrapOK   bool
-	out      strings.Builder
+	// nativeStr (lemmas with strings=native): the query is rewritten so that Go strings are SMT-LIB strings
+	// (concatenation, length and containment interpreted) instead of an uninterpreted sort
+	nativeStr bool
+	out       strings.Builder
 	declared map[string]bool
 	heapSort map[string]string
 	strLits  map[string]string
